@@ -19,7 +19,7 @@ def gen_unit(r, n):
     cases = []
     widths = [1.0, 0.5, 0.25, 0.125, 2.0, 0.75, 1.5, 0.375]
     for k in range(n):
-        kind = r.choice(["BIN", "BIN", "BIN", "ADDR", "ADDR", "INCR", "INCR", "RT"])
+        kind = r.choice(["BIN", "BIN", "BIN", "ADDR", "ADDR", "INCR", "INCR", "RT", "REMAP", "REMAP"])
         if kind == "BIN":
             l = V.dyadic(r, -8, 8)
             w = r.choice(widths)
@@ -48,6 +48,30 @@ def gen_unit(r, n):
                     if r.random() < 0.5:
                         ix[-1] = nx[-1] - 1
                 cases.append("INCR %d %s %s" % (nd, " ".join(map(str, nx)), " ".join(map(str, ix))))
+        elif kind == "REMAP":
+            # a multicolumn file written on grid A read into grid B (same widths; lower boundary shifted,
+            # periodic dimensions by whole or half bins, possibly by more than one period; sizes may differ
+            # in non-periodic dimensions)
+            nd = r.randint(1, 3)
+            nxa = [r.randint(1, 5) for _ in range(nd)]
+            per = [r.randint(0, 1) for _ in range(nd)]
+            wd = [r.choice([1.0, 0.5, 0.25, 2.0]) for _ in range(nd)]
+            la = [V.dyadic(r, -4, 4, bits=2) for _ in range(nd)]
+            nxb, lb = [], []
+            for d in range(nd):
+                if per[d]:
+                    nxb.append(nxa[d])
+                    lb.append(la[d] + r.randint(-2 * nxa[d], 2 * nxa[d]) * wd[d])
+                else:
+                    nxb.append(r.randint(1, 5))
+                    lb.append(la[d] + r.randint(-3, 3) * wd[d])
+            nt = 1
+            for n_ in nxa:
+                nt *= n_
+            data = [float(r.randint(1, 999)) for _ in range(nt)]
+            cases.append("REMAP %d %s %s %s %s %s %s %s" % (nd, " ".join(map(str, nxa)), " ".join(map(str, nxb)),
+                         " ".join(map(V.hexf, la)), " ".join(map(V.hexf, lb)), " ".join(map(V.hexf, wd)),
+                         " ".join(map(str, per)), " ".join(map(V.hexf, data))))
         else:
             nd = r.randint(1, 3)
             nx = [r.randint(1, 4) for _ in range(nd)]
@@ -109,10 +133,61 @@ def oracle_unit(case, impl):
         else:
             if out[0] != "end":
                 return "incr of the last index %s on sizes %s stays in range (%s)" % (ix, nx, impl)
+    elif w[0] == "REMAP":
+        nd = int(w[1]); p = 2
+        nxa = list(map(int, w[p:p + nd])); p += nd
+        nxb = list(map(int, w[p:p + nd])); p += nd
+        la = [fr(float.fromhex(t)) for t in w[p:p + nd]]; p += nd
+        lb = [fr(float.fromhex(t)) for t in w[p:p + nd]]; p += nd
+        wd = [fr(float.fromhex(t)) for t in w[p:p + nd]]; p += nd
+        per = list(map(int, w[p:p + nd])); p += nd
+        data = [float.fromhex(t) for t in w[p:]]
+        ntb = 1
+        for n in nxb:
+            ntb *= n
+        exp = [0.0] * ntb
+        k = 0
+        import itertools
+        for ix in itertools.product(*[range(n) for n in nxa]):
+            tgt = []
+            ok = True
+            for d in range(nd):
+                x = la[d] + wd[d] * (Fr(1, 2) + ix[d])
+                i = floor_fr((x - lb[d]) / wd[d])
+                if per[d]:
+                    i = i % nxb[d]          # the bin that contains x modulo the period
+                if not (0 <= i < nxb[d]):
+                    ok = False
+                tgt.append(i)
+            if ok:
+                a = 0
+                for i, n in zip(tgt, nxb):
+                    a = a * n + i
+                exp[a] = data[k]
+            k += 1
+        try:
+            got = [float.fromhex(t) for t in impl.split()]
+        except ValueError:
+            got = None
+        if got != exp:
+            return "a grid written in multicolumn form on lower boundaries %s and read into the grid on %s (periodic %s) gives %s; every value belongs in the bin containing its centre (modulo the period): %s" % (
+                [float(x) for x in la], [float(x) for x in lb], per, got, exp)
     elif w[0] == "RT":
         if not impl.startswith("same"):
             return "grid written in %s form and read back differs (%s)" % (w[1], impl)
     return None
+
+
+def remap_class(case):
+    """far = some periodic dimension of the receiving grid starts more than one period above the file's grid"""
+    w = case.split(); nd = int(w[1]); p = 2
+    nxa = list(map(int, w[p:p + nd])); p += 2 * nd
+    la = [float.fromhex(t) for t in w[p:p + nd]]; p += nd
+    lb = [float.fromhex(t) for t in w[p:p + nd]]; p += nd
+    wd = [float.fromhex(t) for t in w[p:p + nd]]; p += nd
+    per = list(map(int, w[p:p + nd]))
+    far = any(per[d] and (lb[d] - la[d]) / wd[d] > nxa[d] for d in range(nd))
+    return "periodic-more-than-one-period-below" if far else "general"
 
 
 # ---------------------------------------------------------------- histogram scenarios
@@ -297,11 +372,17 @@ def check(run):
             nontriv = io.startswith("-") or ((float.fromhex(w[3]) - float.fromhex(w[1])) / float.fromhex(w[2])).is_integer()
         elif kind in ("ADDR", "INCR"):
             nontriv = int(w[2] if kind == "ADDR" else w[1]) >= 2
+        elif kind == "REMAP":
+            nontriv = len(set(io.split())) > 2
         run.count(c, nontriv)
         run.dist("unit:" + kind)
         bad = oracle_unit(c, io)
         if bad:
-            run.violation("unit:%s" % kind, bad, {"kind": "unit", "case": c, "impl": io})
+            sig = "unit:%s" % kind
+            if kind == "REMAP":
+                # distinguish the recorded/fixed far-below-the-period case from any other remap failure
+                sig = "unit:REMAP:" + remap_class(c)
+            run.violation(sig, bad, {"kind": "unit", "case": c, "impl": io})
         if kind != "RT":
             mo = mod[mi] if mi < len(mod) else "<none>"
             mi += 1
